@@ -343,5 +343,5 @@ def load_source(src, modname="pv_tmpl", extra=None):
     ns = {"__name__": modname}
     if extra:
         ns.update(extra)
-    exec(compile(src, fname, "exec"), ns)
+    exec(compile(src, fname, "exec", dont_inherit=True), ns)
     return ns
